@@ -281,10 +281,23 @@ def _fold_binop(op, a, b):
     return _BINOPS[op](a, b)
 
 
+# keyword -> positional for the documented group interface (groups.py docstring): calling
+# g.arbitrary_element(seed=s) and g.arbitrary_element(s) is the same call.
+_IFACE_KW = {".arbitrary_element": ("seed",), ".password_to_scalar": ("pw",), ".random_scalar": ("entropy_f",),
+             ".scalar_to_bytes": ("i",), ".bytes_to_scalar": ("b",), ".bytes_to_element": ("b",),
+             ".scalarmult": ("s",), ".add": ("other",)}
+
+
 def mk_app(f, args=(), kw=()):
     """Build the normal form of f(args).  The rewrite table of accepted idioms."""
     args = tuple(args)
     kw = tuple(kw)
+    if kw and f in _IFACE_KW and len(args) == 1:
+        names = _IFACE_KW[f]
+        d = dict(kw)
+        if set(d) == set(names[:len(d)]):
+            args = args + tuple(d[k] for k in names[:len(d)])
+            kw = ()
     n = len(args)
 
     # ---- arithmetic / comparison folding on constants
@@ -433,6 +446,9 @@ def mk_app(f, args=(), kw=()):
                 return Const(binascii.unhexlify(a.v))
             except Exception:
                 pass
+        if is_app(a, ".encode") and len(a.args) == 2 and isinstance(a.args[1], Const) \
+                and str(a.args[1].v).lower() in ("ascii", "utf-8", "utf8", "latin-1"):
+            return App("unhex", (a.args[0],))          # unhexlify accepts ASCII str and bytes alike
         return App("unhex", args)
     if f == "hexs" and n == 1 and isinstance(args[0], Const) and isinstance(args[0].v, bytes):
         import binascii
